@@ -299,7 +299,14 @@ pub fn print_prim(p: &Primitive, out: &mut Vec<u8>) {
 pub fn print_image(img: &Option<(u8, u8, u8)>, out: &mut Vec<u8>) {
     match img {
         Some((w, h, b)) => {
-            out.extend_from_slice(format!("BI /W {} /H {} /BPC 8 /CS /G ID ", w, h).as_bytes());
+            // spelling varies with the planted values: abbreviated / full keys, space or LF after ID
+            let full = (*w as usize + *b as usize) % 2 == 0;
+            let sep = if (*h as usize + *b as usize) % 2 == 0 { " " } else { "\n" };
+            if full {
+                out.extend_from_slice(format!("BI /Width {} /Height {} /BitsPerComponent 8 /ColorSpace /DeviceGray ID{}", w, h, sep).as_bytes());
+            } else {
+                out.extend_from_slice(format!("BI /W {} /H {} /BPC 8 /CS /G ID{}", w, h, sep).as_bytes());
+            }
             for _ in 0..(*w as usize * *h as usize) {
                 out.push(*b);
             }
